@@ -162,7 +162,7 @@ def run(tier, seed):
         cs = [S.hashmap_init, S.percpu_create, S.percpu_read, S.register]
         for f in fmts:
             cs += [S.hashvar_get(f), S.hashvar_set(f)]
-        for K, V in (S.STRUCTS if tier == "thorough" else S.STRUCTS[:1]):
+        for K, V in (S.STRUCTS if tier == "thorough" else S.STRUCTS[::2]):
             cs += S.dict_contracts(K, V) + [S.dict_init(K, V)]
         for c in cs:
             api.verify(c, rep, replay=native)
